@@ -355,7 +355,11 @@ class Pair:
         # axes that stay variable with a moved default
         self.moved = {t for t, lo, de, hi in self.axes if self.exp[t][0] != "pin" and self.exp[t][1] != de}
         self.moved_idx = {i for i, a in enumerate(self.axes) if a[0] in self.moved}
-        inst = instancer.instantiateVariableFont(TTFont(io.BytesIO(data)), dict(limits), **kw)
+        if kw.pop("engine", None) == "mutator":      # the older full instancer: limits must pin every axis
+            from fontTools.varLib import mutator
+            inst = mutator.instantiateVariableFont(TTFont(io.BytesIO(data)), dict(limits))
+        else:
+            inst = instancer.instantiateVariableFont(TTFont(io.BytesIO(data)), dict(limits), **kw)
         buf = io.BytesIO()
         inst.save(buf)
         self.idata = buf.getvalue()
@@ -1060,4 +1064,34 @@ def corpus_truetype_fonts(tier, rnd):
                     compare_outlines(r, p, loc, glyphs, rel + " limits %r" % (limits,), "HVAR" not in p.orig)
                 compare_metrics_and_shaping(r, p, loc, rel + " limits %r" % (limits,), [text] if text else [])
     r.sample({"fonts": CORPUS_VFS})
+    return r
+
+
+@check("C08")
+def mutator_full_instances(tier, rnd):
+    """varLib.mutator.instantiateVariableFont (the older full instancer, still shipped and used by
+    `fonttools varLib.mutator`): at random and corner locations of generated gvar fonts (sparse
+    IUP-inferred deltas, several tents active at once, composites, avar) the static instance draws
+    every glyph as the original does at that location and has no variation tables."""
+    r = Result("seeded gvar fonts (1-3 axes, 0-5 random tents per glyph incl. sparse tuples, avar none/identity/random) x 6 full locations (corners, random interior); HarfBuzz outlines and advances of all glyphs; distinct = (n axes, avar mode, corner/interior)")
+    n_fonts = 16 if tier == "quick" else 160
+    for fi in range(n_fonts):
+        n_axes = [2, 1, 3, 2][fi % 4]
+        avar_mode = [None, "identity", "random"][fi % 3]
+        data, info = make_gvar_font(rnd, n_axes, avar_mode)
+        axes = info["axes"]
+        for li in range(6):
+            corner = li < 2
+            loc = {t: (rnd.choice((lo, hi)) if corner else _uval(rnd, lo, hi)) for t, lo, de, hi in axes}
+            label = "mutator, gvar font #%d axes %r avar %s" % (fi, axes, avar_mode)
+            r.case((n_axes, avar_mode, corner))
+            try:
+                p = Pair(data, loc, engine="mutator", optimize=False)
+            except Exception as e:
+                r.fail("%s: mutator.instantiateVariableFont(%r) raised %s: %s" % (label, loc, type(e).__name__, str(e)[:200]))
+                continue
+            left = [t for t in ("fvar", "gvar", "avar", "HVAR", "MVAR", "cvar") if t in p.inst]
+            if left:
+                r.fail("%s: instance at %r still has %r" % (label, loc, left))
+            compare_outlines(r, p, loc, p.order, label, True)
     return r
